@@ -407,6 +407,16 @@ func runCliProperty(t *testing.T, res *Result, prop string, faults bool) {
 				}
 			}
 		}
+		// a completed response is relabelled (SetID) with the id of a call still in flight, before the
+		// first call's context watcher has run: the watcher must not touch the other call
+		for _, sc := range []*cliScenario{
+			{Ops: []cliOp{{Kind: "call", Arg: "t1"}, {Kind: "call", Arg: "t2"}, {Kind: "reply", Arg: "t1"}, {Kind: "setid", Arg: "t1", Arg2: "t2"}, {Kind: "reply", Arg: "t2"}}},
+			{Ops: []cliOp{{Kind: "call", Arg: "t1"}, {Kind: "batch", Arg: "t2", Arg2: "cc"}, {Kind: "reply", Arg: "t1"}, {Kind: "setid", Arg: "t1", Arg2: "t2.1"}, {Kind: "reply", Arg: "t2.0,t2.1"}}},
+		} {
+			for j := 0; j < pick(40, 400); j++ {
+				runOne(sc, seededPick(rng))
+			}
+		}
 		if prop == "C04" {
 			// batch whose replies come in separate messages, reversed; duplicate in between
 			sc := &cliScenario{Ops: []cliOp{{Kind: "batch", Arg: "t1", Arg2: "cccc"}, {Kind: "reply", Arg: "t1.0"}, {Kind: "reply", Arg: "t1.3,t1.2", Arg2: "dup"}, {Kind: "reply", Arg: "t1.1", Arg2: "err"}}}
